@@ -257,6 +257,7 @@ func runC01(c *an.Ctx) {
 	sharedPoolInitSweep(c, "C01-R15", "dnssvc/internal/mainmw.filteringContext", "filter/internal.Request", "filter/internal.Response")
 	c01Writers(c)
 	c01AndroidMetric(c)
+	c01InitialMW(c)
 	// ---- R20: a query is decoded from exactly the bytes that were received for it (shared with C06-R1); a cloned
 	// response record is fully re-initialised (shared with C07-R1 / C04-R10)
 	c.Floor("C01-R20", 10)
@@ -1296,4 +1297,95 @@ func avStrings(as []an.AV) (ss []string) {
 		ss = append(ss, a.String())
 	}
 	return ss
+}
+
+// c01InitialMW holds the table of the outermost middleware: a special-domain
+// handler, when there is one, answers alone; otherwise the rest of the pipeline
+// serves this request through a non-writer and its response is written once for
+// this request, with the AD bit kept only when the client asked for it (AD or
+// DO set in the request).
+func c01InitialMW(c *an.Ctx) {
+	c.Floor("C01-R21", 1)
+	decide(c, "C01-R21", "dnssvc/internal/initial.(*Middleware).Wrap$1", an.DecideCfg{
+		Dom: an.Domain{"special": an.Bools, "serveerr": an.Bools, "writeerr": an.Bools, "p2.MsgHdr.AuthenticatedData": an.Bools, "do": an.Bools, "resp.MsgHdr.AuthenticatedData": an.Bools},
+		OnCall: func(it *an.Interp, name string, args []an.AV) (an.AV, bool) {
+			errOr := func(feat, tag string) an.AV {
+				if it.Feature(feat).IsTrue() {
+					return an.NonNil(tag)
+				}
+				return an.Nil()
+			}
+			switch {
+			case strings.HasSuffix(name, "dnsmsg.IsDO"):
+				if args[0].String() != "p2" {
+					return an.Sym("DO of another message"), true
+				}
+				return it.Feature("do"), true
+			case strings.HasSuffix(name, "MustRequestInfoFromContext"):
+				return an.NonNil("ri"), true
+			case strings.HasSuffix(name, ").reqInfoSpecialHandler"):
+				if it.Feature("special").IsTrue() {
+					return an.AV{Kind: an.KTuple, Tup: []an.AV{an.NonNil("spec"), an.CStr("name")}}, true
+				}
+				return an.AV{Kind: an.KTuple, Tup: []an.AV{an.Nil(), an.CStr("")}}, true
+			case name == "nonnil:spec" || name == "dynamic" || strings.HasPrefix(name, "spec"):
+				return an.Sym("special(" + strings.Join(avStrings(args), ",") + ")"), true
+			case strings.HasSuffix(name, "internal.MakeNonWriter"):
+				return an.NonNil("nwrw(" + args[0].String() + ")"), true
+			case strings.HasSuffix(name, ".ServeDNS"):
+				return errOr("serveerr", "serveErr"), true
+			case strings.HasSuffix(name, "NonWriterResponseWriter).Msg"):
+				return an.NonNil("resp"), true
+			case name == "p1.WriteMsg":
+				return errOr("writeerr", "writeErr"), true
+			case strings.HasSuffix(name, "errors.Annotate"):
+				return args[0], true
+			}
+			return an.AV{}, false
+		},
+		Expect: func(f an.Features, o an.AOutcome) string {
+			find := func(suffix string) (an.Effect, bool) {
+				for _, e := range o.Effects {
+					if e.Kind == "call" && strings.HasSuffix(e.Name, suffix) {
+						return e, true
+					}
+				}
+				return an.Effect{}, false
+			}
+			serve, served := find(".ServeDNS")
+			write, written := find("p1.WriteMsg")
+			if f.B("special") {
+				if served || written || o.RetString() != "dyn:nonnil:spec(p0, p1, p2, nonnil:ri)" {
+					return "the special-domain handler answers alone, with this context, writer, request and request information; got " + o.RetString()
+				}
+				return ""
+			}
+			if !served || strings.Join(serve.Args, ",") != "p0,nonnil:nwrw(p1),p2" {
+				return "the rest of the pipeline serves this request through a non-writer; got " + strings.Join(serve.Args, ",")
+			}
+			if f.B("serveerr") {
+				if written || len(o.Ret) != 1 || o.Ret[0].Kind == an.KNil {
+					return "a pipeline error is returned and nothing is written"
+				}
+				return ""
+			}
+			if !written || strings.Join(write.Args, ",") != "p0,p2,nonnil:resp" {
+				return "the pipeline's response is written once for this request; got " + strings.Join(write.Args, ",")
+			}
+			wantAD := f.B("resp.MsgHdr.AuthenticatedData") && (f.B("p2.MsgHdr.AuthenticatedData") || f.B("do"))
+			gotAD := ""
+			for _, st := range o.Stores() {
+				if strings.HasPrefix(st, "resp.MsgHdr.AuthenticatedData=") {
+					gotAD = strings.TrimPrefix(st, "resp.MsgHdr.AuthenticatedData=")
+				}
+			}
+			if gotAD != fmt.Sprint(wantAD) {
+				return fmt.Sprintf("AD in the response = %v (kept only when the response is authenticated and the request had AD or DO); got %q", wantAD, gotAD)
+			}
+			if f.B("writeerr") != (len(o.Ret) == 1 && o.Ret[0].Kind != an.KNil) {
+				return "a write error is returned; got " + o.RetString()
+			}
+			return ""
+		},
+	})
 }
